@@ -74,6 +74,27 @@ def reward_tie_grids(ctx):
     return out
 
 
+def late_tie_grids():
+    """a Player-1 / Player-2 root all of whose successors reach the final state surely and whose expected rewards are p * unit:
+    the optimum is NOT on the first transition and is shared by two later ones, at values that are not their own 6-digit
+    rounding (1/3, 2/3, 0.7*3): every permutation of the row. A scan that mixes rounded and unrounded values drops a tied action."""
+    import itertools
+    from fractions import Fraction as Fr
+    out = []
+    for kind, multis in ((P2, [(2 / 3, 1 / 3, 1 / 3), (1.0, 1 / 3, 2 / 3, 1 / 3)]), (P1, [(1 / 3, 2 / 3, 2 / 3), (0.1, 0.7, 1 / 3, 0.7)])):
+        for ps in multis:
+            for unit in (1, 3):
+                for perm in sorted(set(itertools.permutations(ps))):
+                    k = len(perm)
+                    X, F = k + 1, k + 2
+                    tl = [[("act%d" % i, 1 + i) for i in range(k)]] + [[(p, X), (1 - p, F)] if p != 1.0 else [(1.0, X)] for p in perm]
+                    tl += [[(1, F)], [(1, F)]]
+                    fr = [None] + [[Fr(p), Fr(1 - p)] if p != 1.0 else [Fr(1)] for p in perm] + [[Fr(1)], [Fr(1)]]
+                    out.append((dict(rewards=[0] * (k + 1) + [unit, 0], players=[kind] + [PR] * (k + 2), transition_list=tl,
+                                     final_states=[F]), dict(fr=fr, style="pattern")))
+    return out
+
+
 def run(ctx):
     games = [(gen_games.FIG55, gen_games.FIG55_META)] + sc.corpus_games() + gen_games.pattern_games(3)
     games += gen_games.mixed_games(ctx.rng, 250 if ctx.quick else 4000, 3, 9, styles=("stopping", "exact", "ties"))
@@ -86,6 +107,8 @@ def run(ctx):
             extra.append((g2, dict(m, style="stopping", guard="any")))
     games += extra
     games += reward_tie_grids(ctx)
+    lt = late_tie_grids()
+    games += lt[::2] if ctx.quick else lt
     games += gen_games.pattern_games3(2 if ctx.quick else 3)      # successors that are barely alive (1e-7): they stay permitted
     games += gen_games.extra_families(ctx.rng, games, 12 if ctx.quick else 150)
     recs = sc.run_games(ctx, games, limit=10, tag="c05")
